@@ -153,5 +153,6 @@ def obligations(tier: str):
         # (stack over f3 never completes a program within 14 gene reads: nothing to check - removed;
         # stack crossover of two 3-gene genomes followed by two mappings: 3500+ paths, not exhausted in 3000 s)
         add("stack_f0_mutate", fixture="f0", rep="stack", gene_length=3, failures_limit=1, gene_fuel=8, ops=["mutate"], timeout=150)
-        add("stack_f0_crossover", fixture="f0", rep="stack", gene_length=2, failures_limit=1, gene_fuel=6, ops=["crossover"], timeout=150)
+        # (with 2 genes / 6 reads the crossed-over genomes never map to a program: the reachability twin
+        # reports the obligation vacuous - dropped; C06 checks stack crossover at the genotype level)
     return obs
